@@ -358,6 +358,47 @@ Section Wire.
       | Lib e => Lib e
       | Internal e => Internal e
       end.
+  (* instrumented copy of fw_go: additionally returns the list of followed pointer targets
+     (oldest first); Proofs/NameWire.v proves it computes the same result as fw_go *)
+  Fixpoint fw_go_tr (fuel : nat) (p : pst) (biggest : nat) (acc : list label) (tr : list nat)
+    : res (list label * pst * list nat) :=
+    match fuel with
+    | O => Internal iFuel
+    | S f =>
+        match get_u8 p with
+        | Lib e => Lib e
+        | Internal e => Internal e
+        | Ok (count, p1) =>
+            if count =? 0 then Ok (rev ([] :: acc), p1, rev tr)
+            else if count <? 64 then
+              match get_bytes p1 (Z.to_nat count) with
+              | Lib e => Lib e
+              | Internal e => Internal e
+              | Ok (l, p2) => fw_go_tr f p2 biggest (l :: acc) tr
+              end
+            else if 192 <=? count then
+              match get_u8 p1 with
+              | Lib e => Lib e
+              | Internal e => Internal e
+              | Ok (lo, p2) =>
+                  let c := Z.to_nat ((count - 192) * 256 + lo) in
+                  if Nat.leb biggest c then Lib eBadPointer
+                  else if Nat.ltb endp c then Lib eFormError
+                  else fw_go_tr f {| cur := c; furthest := furthest p2 |} c acc (c :: tr)
+              end
+            else Lib eBadLabelType
+        end
+    end.
+
+  Definition from_wire_tr (start : nat) : res (name * nat * list nat) :=
+    if Nat.ltb endp start then Lib eFormError
+    else
+      match fw_go_tr (fw_fuel start) {| cur := start; furthest := start |} start [] [] with
+      | Ok (labels, p, tr) =>
+          do n <- mk_name labels; Ok (n, furthest p - start, tr)%nat
+      | Lib e => Lib e
+      | Internal e => Internal e
+      end.
 End Wire.
 
 (* ---------- RFC 4471 successor / predecessor ---------- *)
@@ -558,5 +599,9 @@ Definition run (c : obs) : obs :=
       match name_of_obs a, oname_of_obs o with
       | Some a, Some o => obs_of_res obs_of_name (choose_relativity a o (rel =? 1))
       | _, _ => E eBadCase end
+  | L [I 17; B w; I off] =>
+      obs_of_res (fun r => L [obs_of_name (fst (fst r)); I (Z.of_nat (snd (fst r)));
+                              L (map (fun t => I (Z.of_nat t)) (snd r))])
+                 (from_wire_tr w (Z.to_nat off))
   | _ => E eBadCase
   end.
